@@ -1,96 +1,450 @@
-"""C09 — penalty methods keep every constraint and build f + weighted squared violations (DESIGN §5 C09)."""
+"""C09 — penalty methods keep every constraint and build f + weighted squared violations (DESIGN §5 C09).
+
+Written against the normal form (`VIEW = 'norm'`): `for` loops, `map/zip/fold/collect/extend` pipelines and
+extracted helpers all look like explicit `next` loops.  The rules speak about *dataflow roles*, not about
+the number of loops or constructors:
+
+  constraint loop   a loop whose iterated sequence is `self.constraints` itself (walked through
+                    order/completeness preserving adaptors only, see SEQ_ADAPTORS) – one pass or many
+  R                 the vector that ends up in `removed_constraints`: starts as `self.removed_constraints`,
+                    and some constraint loop pushes `RemovedConstraint{Some(item), ..}` on every path
+  P                 (per-constraint) the vector that ends up in `parameters`: filled with exactly one
+                    `Parameter{id: fresh + index, subscripts: [item.id]}` per iteration of a constraint loop
+  pairing           wherever a weight multiplies g_c or is recorded as "parameter_id" of c, the weight is
+                    the one created for c: built in the same iteration from the same item, or taken from
+                    P zipped in lock-step with `self.constraints` (both walked in order)
+"""
 import re
 from .common import *
+
+VIEW = 'norm'
 
 INST = 'v1::Instance'
 CARRIED = ['description', 'decision_variables', 'sense', 'constraint_hints', 'decision_variable_dependency']
 
+PARAM_TY = re.compile(r"^(&('\w+ )?(mut )?)?v1::Parameter$")
+NEVER = re.compile(r'(?!x)x')
+# value-preserving accessors followed when asking "which constraint is this function the function of"
+FUNC_TRANSPARENT = re.compile(T.TRANSPARENT.pattern.replace('::(as_ref|', '::(function|as_ref|', 1))
+# identity-preserving only (no clone): followed when asking "which object is this"
+REF_TRANSPARENT = re.compile(r'::(as_ref|as_mut|as_deref|deref|deref_mut|borrow|borrow_mut)(::<.*>)?$')
 
-def returned_aggregate(ctx, rule, body, adt):
-    aggs = find_aggregates(body, adt)
-    if len(aggs) != 1:
-        ctx.bad(rule, 'ANCHOR', body.name, 'expected exactly one %s aggregate, found %d' % (adt, len(aggs)))
-        return None
-    return aggs[0][1]
+# ---------------------------------------------------------------------------------------------------
+# sequences: what does a loop iterate over, element by element?
+# (trait suffix or None for inherent, item) -> (number of sequence arguments, keeps the order)
+# every entry hands on *all* elements of its argument(s); `in_order` additionally says element i stays
+# element i (needed only when two sequences are walked in lock-step)
+SEQ_ADAPTORS = {
+    ('IntoIterator', 'into_iter'): (1, True),    # `for x in v` / v.into_iter() / identity on an iterator
+    (None, 'iter'): (1, True),                   # v.iter()
+    (None, 'iter_mut'): (1, True),               # v.iter_mut()
+    (None, 'as_slice'): (1, True),               # v.as_slice()
+    (None, 'as_mut_slice'): (1, True),           # v.as_mut_slice()
+    ('Deref', 'deref'): (1, True),               # &Vec<T> -> &[T]
+    ('DerefMut', 'deref_mut'): (1, True),        # &mut Vec<T> -> &mut [T]
+    ('Iterator', 'enumerate'): (1, True),        # (i, x): same elements, adds the position
+    ('Iterator', 'zip'): (2, True),              # (a_i, b_i): lock-step over both arguments
+    ('Iterator', 'by_ref'): (1, True),           # &mut it
+    ('Iterator', 'peekable'): (1, True),         # look-ahead only
+    ('Iterator', 'fuse'): (1, True),             # same elements
+    ('Iterator', 'copied'): (1, True),           # element-wise copy
+    ('Iterator', 'cloned'): (1, True),           # element-wise clone
+    ('Iterator', 'rev'): (1, False),             # all elements, reversed: fine for a single pass, breaks lock-step
+}
+INHERENT_SEQ_OWNER = re.compile(r'slice::<impl \[|::Vec::<|::VecDeque::<')
+EMPTY_VEC_CTOR = re.compile(r'::Vec::<.*>::(new|with_capacity)$|<std::vec::Vec<.*> as std::default::Default>::default$')
+# calls through `&mut vec` that change which element sits at which position
+VEC_REORDER = ('sort', 'sort_by', 'sort_by_key', 'sort_unstable', 'sort_unstable_by', 'sort_unstable_by_key', 'sort_by_cached_key',
+               'reverse', 'swap', 'swap_remove', 'remove', 'insert', 'retain', 'retain_mut', 'dedup', 'dedup_by', 'dedup_by_key',
+               'truncate', 'pop', 'drain', 'clear', 'rotate_left', 'rotate_right', 'split_off', 'append', 'extend', 'resize')
+# the subset that keeps the multiset of elements (harmless unless the position matters)
+VEC_PERMUTE = ('sort', 'sort_by', 'sort_by_key', 'sort_unstable', 'sort_unstable_by', 'sort_unstable_by_key', 'sort_by_cached_key',
+               'reverse', 'swap', 'rotate_left', 'rotate_right')
+
+
+def _callmap(body):
+    m = getattr(body, '_c09_callmap', None)
+    if m is None:
+        m = body._c09_callmap = {c.bb: c for c in body.calls}
+    return m
+
+
+def _whole_defs(body, l):
+    return [d for d in body.defs_of(l) if not (d[0] == 'stmt' and d[2]['dst']['p'])]
+
+
+def seq_adaptor(c):
+    tr = (c.trait or '').split('::')[-1] or None
+    ent = SEQ_ADAPTORS.get((tr, c.item))
+    if ent is None: return None
+    if tr is None and not INHERENT_SEQ_OWNER.search(c.name): return None
+    return ent
+
+
+def seq_sources(body, op, in_order=True, crossed=None, acc=(), depth=24):
+    """leaves of the sequence an iterator operand walks: list of (kind, key, in_order)
+         ('field', (param, ((adt, f), ..)))   a field of a parameter, e.g. self.constraints
+         ('vec', local)                        a local Vec created empty (filled by pushes)
+         ('other', text)                       anything else (a call result, a restricted iterator, ..)
+       `crossed` collects the items of the adaptors passed (e.g. 'enumerate')."""
+    if crossed is None: crossed = set()
+    if depth == 0 or op['k'] not in ('copy', 'move'): return [('other', 'unknown operand', in_order)]
+    pl = op['pl']; l = pl['l']; fs = tuple(fields_of_place(pl)) + tuple(acc)
+    if 1 <= l <= body.argc:
+        return [('field', (l, fs), in_order)] if fs else [('other', 'parameter _%d' % l, in_order)]
+    defs = _whole_defs(body, l)
+    if len(defs) != 1: return [('other', 'local _%d has %d definitions' % (l, len(defs)), in_order)]
+    k, bi, d = defs[0]
+    if k == 'stmt':
+        rv = d['rv']
+        if rv['k'] == 'use' and rv['ops'][0]['k'] in ('copy', 'move'):
+            return seq_sources(body, rv['ops'][0], in_order, crossed, fs, depth - 1)
+        if rv['k'] == 'ref':
+            return seq_sources(body, {'k': 'copy', 'pl': rv['pl']}, in_order, crossed, fs, depth - 1)
+        return [('other', 'local _%d' % l, in_order)]
+    c = _callmap(body)[bi]
+    if fs: return [('other', 'projection of ' + c.item, in_order)]
+    ent = seq_adaptor(c)
+    if ent is not None:
+        n, keeps = ent
+        crossed.add(c.item)
+        out = []
+        for a in c.args[:n]:
+            out += seq_sources(body, a, in_order and keeps, crossed, (), depth - 1)
+        return out
+    if EMPTY_VEC_CTOR.search(c.name): return [('vec', l, in_order)]
+    return [('other', 'result of ' + c.name[:70], in_order)]
+
+
+def is_constraints_leaf(leaf):
+    k, key, _ = leaf
+    return k == 'field' and key[0] == 1 and len(key[1]) == 1 and key[1][0][1] == 'constraints' and \
+        (key[1][0][0] == INST or key[1][0][0].endswith('::' + INST))
+
+
+class Loop:
+    def __init__(self, body, lo):
+        self.lo = lo; self.next, self.header, self.some_bb, self.none_bb, self.blocks = lo
+        self.item = self.next.dst['l']
+        self.crossed = set()
+        self.leaves = seq_sources(body, self.next.args[0], True, self.crossed)
+        self.over_constraints = any(is_constraints_leaf(x) for x in self.leaves)
+
+    def site(self, body): return body.site(self.next.bb)
+
+
+def innermost(loops, bb):
+    best = None
+    for L in loops:
+        if bb in L.blocks and (best is None or len(L.blocks) < len(best.blocks)): best = L
+    return best
+
+
+def root_of(body, op, transparent=NEVER, depth=24, cross_proj=True):
+    """(root local, fields crossed, transparent calls crossed): follows single-definition copies / refs and
+    calls matching `transparent` backwards; stops at parameters, aggregates, other calls, multiply-defined locals"""
+    fields = []; crossed = []
+    if op is None or op['k'] not in ('copy', 'move'): return None, fields, crossed
+    pl = op['pl']
+    for _ in range(depth):
+        fields = fields_of_place(pl) + fields
+        l = pl['l']
+        if 1 <= l <= body.argc: return l, fields, crossed
+        defs = _whole_defs(body, l)
+        if len(defs) != 1: return l, fields, crossed
+        k, bi, d = defs[0]
+        if k == 'stmt':
+            rv = d['rv']
+            if rv['k'] == 'use' and rv['ops'][0]['k'] in ('copy', 'move') and (cross_proj or not fields_of_place(rv['ops'][0]['pl'])):
+                pl = rv['ops'][0]['pl']; continue
+            if rv['k'] == 'ref' and (cross_proj or not fields_of_place(rv['pl'])): pl = rv['pl']; continue
+            return l, fields, crossed
+        nm = d['r'] or d['f']
+        if transparent.search(T.strip_generics_tail(nm)) and d['args'] and d['args'][0]['k'] in ('copy', 'move'):
+            crossed.append(nm); pl = d['args'][0]['pl']; continue
+        return l, fields, crossed
+    return None, fields, crossed
+
+
+def agg_def(body, l, adt_suffix):
+    """the statement `l = Adt { .. }` if that is l's only definition"""
+    if l is None: return None
+    defs = _whole_defs(body, l)
+    if len(defs) == 1 and defs[0][0] == 'stmt':
+        rv = defs[0][2]['rv']
+        if rv['k'] == 'agg' and (rv['adt'] == adt_suffix or rv['adt'].endswith('::' + adt_suffix)): return defs[0][1], defs[0][2]
+    return None
+
+
+def recv_root(body, c):
+    """the local collection a method call works on (a vector moved out of `self.field` is that local, not `self`)"""
+    if not c.args: return None
+    return root_of(body, c.args[0], REF_TRANSPARENT, cross_proj=False)[0]
+
+
+def pushes_into(body, vec_local=None, elem_ty=None):
+    out = []
+    for c in body.calls:
+        if c.item != 'push' or len(c.args) != 2 or '::Vec::<' not in c.name: continue
+        r = recv_root(body, c)
+        if r is None: continue
+        if vec_local is not None and r != vec_local: continue
+        if elem_ty is not None and not re.match(r'^std::vec::Vec<%s>$' % re.escape(elem_ty), body.locals[r].strip()): continue
+        out.append(c)
+    return out
+
+
+def once_per_iteration(body, L, sites):
+    """every path Some-arm -> header passes exactly one of the blocks in `sites`"""
+    if not sites or not all(s in L.blocks for s in sites): return False, 'not inside the loop'
+    if not T.must_pass(body, L.some_bb, {L.header}, set(sites)): return False, 'a path through the loop body skips it'
+    for s in sites:
+        seen = set(); w = [x for x in body.succ(s) if not body.blocks[x]['cleanup']]
+        while w:
+            x = w.pop()
+            if x in seen or x == L.header or x not in L.blocks: continue
+            seen.add(x)
+            if x in sites: return False, 'a path through the loop body passes it twice'
+            w += [y for y in body.succ(x) if not body.blocks[y]['cleanup']]
+    return True, ''
+
+
+def aligned_parameter_vec(ctx, body, loops, P, need_order=True, _guard=None):
+    """is local Vec P filled with exactly one Parameter per element of self.constraints (need_order: and in
+    the order of self.constraints, which matters only when P is later walked in lock-step with it)?
+    returns (ok, why, fill loop, [(bb, Parameter aggregate stmt)])"""
+    _guard = _guard or set()
+    if P in _guard: return False, 'cyclic', None, []
+    defs = _whole_defs(body, P)
+    if len(defs) != 1 or defs[0][0] != 'call' or not EMPTY_VEC_CTOR.search(_callmap(body)[defs[0][1]].name):
+        return False, '_%d is not a vector created empty and filled by push' % P, None, []
+    sites = pushes_into(body, P)
+    if not sites: return False, 'nothing is pushed into _%d' % P, None, []
+    Ls = {id(innermost(loops, c.bb)): innermost(loops, c.bb) for c in sites}
+    if len(Ls) != 1 or None in Ls.values(): return False, 'the pushes into _%d are not all inside one loop' % P, None, []
+    L = list(Ls.values())[0]
+    if not L.over_constraints: return False, 'the loop filling _%d (%s) does not walk self.constraints itself' % (P, L.site(body)), L, []
+    for leaf in L.leaves:
+        if is_constraints_leaf(leaf) and (leaf[2] or not need_order): continue
+        if leaf[0] == 'vec' and leaf[2] and aligned_parameter_vec(ctx, body, loops, leaf[1], True, _guard | {P})[0]: continue
+        return False, 'the loop filling _%d also depends on %s%s' % (P, leaf[1] if leaf[0] == 'other' else leaf[0], '' if leaf[2] else ' (order not kept)'), L, []
+    ok, why = once_per_iteration(body, L, [c.bb for c in sites])
+    if not ok: return False, 'push into _%d: %s' % (P, why), L, []
+    # nothing reorders P afterwards / in between
+    for c in body.calls:
+        if c in sites or not c.args: continue
+        if recv_root(body, c) != P: continue
+        a0 = c.args[0]
+        if a0['k'] not in ('copy', 'move') or '&mut' not in body.locals[a0['pl']['l']]: continue
+        if c.item in VEC_REORDER and (need_order or c.item not in VEC_PERMUTE): return False, '_%d is reordered by `%s` (%s)' % (P, c.item, body.site(c.bb)), L, []
+    aggs = []
+    for c in sites:
+        r = root_of(body, c.args[1])[0]
+        a = agg_def(body, r, 'v1::Parameter')
+        if a is None or a[0] not in L.blocks: return False, 'the value pushed into _%d is not a Parameter built in the same iteration' % P, L, []
+        aggs.append(a)
+    return True, '', L, aggs
+
+
+def parameter_origin(ctx, body, loops, L, op, per_method_P):
+    """Is the Parameter value `op`, used inside loop L, the weight of L's current constraint?
+    returns (ok, how)"""
+    r, fs, calls = root_of(body, op, REF_TRANSPARENT)
+    if r is None: return False, 'origin of the parameter not traceable'
+    a = agg_def(body, r, 'v1::Parameter')
+    if a is not None:
+        # built from the item in this very iteration
+        if L is not None and a[0] in L.blocks and L.over_constraints: return True, 'built in the same iteration (%s)' % body.site(a[0])
+        return False, 'parameter built at %s is used for a constraint of another loop / outside a constraint loop' % body.site(a[0])
+    if L is not None and r == L.item:
+        # lock-step: every sequence walked is self.constraints or a per-constraint parameter vector, all in order
+        nvec = 0
+        for leaf in L.leaves:
+            if not leaf[2]: return False, 'lock-step loop walks a sequence out of order'
+            if is_constraints_leaf(leaf): continue
+            if leaf[0] == 'vec':
+                ok, why, _, _ = aligned_parameter_vec(ctx, body, loops, leaf[1])
+                if not ok: return False, 'zipped parameter vector is not index-aligned with self.constraints: ' + why
+                nvec += 1; continue
+            return False, 'lock-step loop walks %s, which is not self.constraints nor a per-constraint parameter vector' % (leaf[1],)
+        if nvec and L.over_constraints: return True, 'zipped with the index-aligned parameter vector'
+        return False, 'loop item carries a parameter but the loop does not zip self.constraints with a parameter vector'
+    return False, 'parameter comes from _%d, which is neither built in this iteration nor the item of a lock-step loop' % r
+
+
+def loop_counter_in(body, L, s):
+    """does slice `s` contain a value that changes with every iteration of L?  (idioms, one per entry)"""
+    # 1. `.enumerate()` on the loop's iterator and the slice reaches the loop item
+    if 'enumerate' in L.crossed and L.item in s.locals: return 'enumerate index'
+    # 2. `vec.len()` of a vector pushed once per iteration
+    for c in s.call_objs:
+        if c.item == 'len' and c.args:
+            v = recv_root(body, c)
+            if v is not None and any(p.bb in L.blocks for p in pushes_into(body, v)): return 'len of the vector being filled'
+    # 3. a counter: integer local initialised outside the loop and updated from itself inside it
+    for l in s.locals:
+        if not re.fullmatch(r'[iu](8|16|32|64|128|size)', body.locals[l]): continue
+        ds = _whole_defs(body, l)
+        inside = [d for d in ds if d[1] in L.blocks]; outside = [d for d in ds if d[1] not in L.blocks]
+        if inside and outside and any(d[0] == 'stmt' and l in _reads(body, d[2]) for d in inside): return 'counter'
+    return None
+
+
+def _reads(body, st, depth=4):
+    """locals read (transitively through temporaries, a few steps) by a statement"""
+    out = set(); work = []
+    def ops_of(rv):
+        r = []
+        for o in rv.get('ops', []):
+            if o['k'] in ('copy', 'move'): r.append(o['pl']['l'])
+        if 'pl' in rv: r.append(rv['pl']['l'])
+        return r
+    work = [(x, depth) for x in ops_of(st['rv'])]
+    while work:
+        l, d = work.pop()
+        if l in out: continue
+        out.add(l)
+        if d == 0: continue
+        for k, bi, x in _whole_defs(body, l):
+            if k == 'stmt': work += [(y, d - 1) for y in ops_of(x['rv'])]
+    return out
+
+
+def is_mul(c):
+    return (c.trait or '').endswith('ops::Mul') and c.item == 'mul' and len(c.args) == 2
+
+
+def from_constraint_function(s):
+    return s.has_field('v1::Constraint', 'function') or s.has_call(r'impl v1::Constraint>::function')
+
+
+def square_sites(ctx, body, so):
+    """products whose two operands both derive from a constraint's function, in the objective's slice:
+    in this body, or in a closure the slice goes through (a pipeline the normal form leaves alone,
+    e.g. `.map(|c| g*g).sum::<Function>()`)"""
+    out = []
+    for c in so.call_objs:
+        if is_mul(c) and all(from_constraint_function(ctx.S.slice_operand(body, a)) for a in c.args):
+            out.append(body.site(c.bb))
+    for cn in sorted(so.closures):
+        cb = ctx.F.bodies.get(cn)
+        if cb is None: continue
+        for c in cb.calls:
+            if is_mul(c) and all(from_constraint_function(ctx.S.slice_operand(cb, a)) for a in c.args):
+                out.append(cb.site(c.bb))
+    return out
 
 
 def check_method(ctx, name, uniform):
-    R = 'C09.%s' % ('uniform' if uniform else 'per')
     body = ctx.method('C09.anchor/' + name, INST, name)
     if body is None: return
+    fn = body.name
     # ---- coverage of the input message
     cover(ctx, 'C09.cover/' + name, body, INST, exempt=('parameters',))
-    agg = returned_aggregate(ctx, 'C09.carry/%s/aggregate' % name, body, 'v1::ParametricInstance')
-    if agg is None: return
-    for f in CARRIED:
-        carry_field(ctx, 'C09.carry/%s/%s' % (name, f), body, agg, f, need_fields=[(INST, f)])
-    # no active constraints in the result
-    carry_field(ctx, 'C09.carry/%s/constraints' % name, body, agg, 'constraints', not_fields=[(INST, 'constraints'), (INST, 'removed_constraints')])
-    # every constraint of the input — already removed ones included — is kept as removed
-    carry_field(ctx, 'C09.carry/%s/removed_constraints' % name, body, agg, 'removed_constraints',
-                need_fields=[(INST, 'constraints'), (INST, 'removed_constraints')])
-    # objective = old objective + parameter * g*g
-    so = carry_field(ctx, 'C09.carry/%s/objective' % name, body, agg, 'objective',
-                     need_fields=[(INST, 'objective'), (INST, 'constraints')],
-                     need_calls=[r'ops::Add.* for v1::Function>::add|Function as std::ops::Add', r'ops::Mul'])
-    if so is not None:
-        plocals = [l for l in so.locals if re.fullmatch(r'&?v1::Parameter', body.locals[l])]
-        ctx.check(bool(plocals), 'C09.objective/%s/parameter' % name, 'T-CARRY', body.name, 'objective does not depend on a weight parameter', body.site())
-        # the squared term: a product whose two operands both derive from the constraint's function
-        sq = []
-        for c in so.call_objs:
-            if (c.trait or '').endswith('ops::Mul') and c.item == 'mul' and len(c.args) == 2:
-                ss = [ctx.S.slice_operand(body, a) for a in c.args]
-                if all(s.has_field('v1::Constraint', 'function') or s.has_call(r'impl v1::Constraint>::function') for s in ss):
-                    sq.append(c)
-        ctx.check(bool(sq), 'C09.objective/%s/square' % name, 'T-CARRY', body.name,
-                  'objective contains no product g*g of a constraint function with itself', body.site(),
-                  square_sites=[body.site(c.bb) for c in sq])
-    # parameters of the result
-    sp = carry_field(ctx, 'C09.carry/%s/parameters' % name, body, agg, 'parameters')
+    aggs = find_aggregates(body, 'v1::ParametricInstance')
+    if not aggs:
+        ctx.bad('C09.carry/%s/aggregate' % name, 'ANCHOR', fn, 'no v1::ParametricInstance is built'); return
+    loops = [Loop(body, lo) for lo in T.for_loops(body)]
+    cloops = [L for L in loops if L.over_constraints]
+    ctx.check(bool(cloops), 'C09.loop/%s' % name, 'T-LOOPMUST', fn, 'no loop walks self.constraints itself (found %d loops)' % len(loops), body.site(),
+              loops=[L.site(body) for L in cloops])
     paggs = find_aggregates(body, 'v1::Parameter')
-    ctx.check(len(paggs) == 1, 'C09.parameters/%s/one-constructor' % name, 'T-CARRY', body.name, 'expected one v1::Parameter aggregate, found %d' % len(paggs), body.site())
-    loops = loops_over(ctx, body, INST, 'constraints')
-    ctx.check(len(loops) == 1, 'C09.loop/%s' % name, 'T-LOOPMUST', body.name, 'expected one loop over self.constraints, found %d' % len(loops), body.site())
+    ctx.check(bool(paggs), 'C09.parameters/%s/constructed' % name, 'T-CARRY', fn, 'no weight parameter (v1::Parameter literal) is built', body.site())
+
+    for _, agg in aggs:
+        for f in CARRIED:
+            carry_field(ctx, 'C09.carry/%s/%s' % (name, f), body, agg, f, need_fields=[(INST, f)])
+        # no active constraints in the result
+        carry_field(ctx, 'C09.carry/%s/constraints' % name, body, agg, 'constraints', not_fields=[(INST, 'constraints'), (INST, 'removed_constraints')])
+        # every constraint of the input — already removed ones included — is kept as removed
+        carry_field(ctx, 'C09.carry/%s/removed_constraints' % name, body, agg, 'removed_constraints',
+                    need_fields=[(INST, 'constraints'), (INST, 'removed_constraints')])
+        # objective = old objective + parameter * g*g
+        so = carry_field(ctx, 'C09.carry/%s/objective' % name, body, agg, 'objective',
+                         need_fields=[(INST, 'objective'), (INST, 'constraints')],
+                         need_calls=[r'ops::Add.* for v1::Function>::add|Function as std::ops::Add', r'ops::Mul'])
+        if so is not None:
+            # weighted products: a multiplication one operand of which is a Parameter
+            wsites = [(c, a) for c in so.call_objs if is_mul(c) for a in c.args
+                      if a['k'] in ('copy', 'move') and not a['pl']['p'] and PARAM_TY.match(body.locals[a['pl']['l']])]
+            ctx.check(bool(wsites), 'C09.objective/%s/parameter' % name, 'T-CARRY', fn, 'objective does not depend on a product with a weight parameter', body.site())
+            sq = square_sites(ctx, body, so)
+            ctx.check(bool(sq), 'C09.objective/%s/square' % name, 'T-CARRY', fn,
+                      'objective contains no product g*g of a constraint function with itself', body.site(), square_sites=sq)
+            if not uniform:
+                # weight_c multiplies g_c: the parameter and the function belong to the same constraint
+                for c, a in wsites:
+                    L = innermost(loops, c.bb)
+                    ok, how = parameter_origin(ctx, body, loops, L, a, None)
+                    if ok:
+                        others = [x for x in c.args if x is not a]
+                        so2 = ctx.S.slice_operand(body, others[0]) if others else None
+                        if so2 is None or not (L.item in so2.locals and from_constraint_function(so2)):
+                            ok, how = False, 'the weight does not multiply the function of the loop\'s current constraint'
+                    ctx.check(ok, 'C09.pair/%s/objective' % name, 'T-CARRY', fn, 'weight and squared function of different constraints: ' + how, body.site(c.bb), how=how)
+        # parameters of the result
+        sp = carry_field(ctx, 'C09.carry/%s/parameters' % name, body, agg, 'parameters')
+        if sp is not None and paggs:
+            ctx.check(any(st['dst']['l'] in sp.locals for _, st in paggs), 'C09.parameters/%s/returned' % name, 'T-CARRY', fn,
+                      'the weight parameter built here does not reach the result\'s `parameters`', body.site())
+        if not uniform:
+            # one weight per constraint: `parameters` is a vector filled once per iteration of a constraint loop
+            P = root_of(body, agg_field_operand(agg, 'parameters'), cross_proj=False)[0]
+            ok, why, PL, pushed = aligned_parameter_vec(ctx, body, loops, P, need_order=False) if P is not None else (False, 'not traceable', None, [])
+            ctx.check(ok, 'C09.parameters/%s/per-constraint' % name, 'T-LOOPMUST', fn, '`parameters` does not hold exactly one weight per constraint: ' + why,
+                      PL.site(body) if PL else body.site())
+
     for bi, st in paggs:
         fresh_id_rule(ctx, 'C09.fresh/%s' % name, body, agg_field_operand(st, 'id'), 'weight parameter id')
+        L = innermost(loops, bi)
         if not uniform:
-            carry_field(ctx, 'C09.tags/%s/subscripts' % name, body, st, 'subscripts', need_fields=[('v1::Constraint', 'id')], site=body.site(bi))
-            # id differs per constraint: depends on the enumerate index
+            ctx.check(L is not None and L.over_constraints, 'C09.parameters/%s/in-loop' % name, 'T-LOOPMUST', fn, 'parameter is not created inside a loop over self.constraints', body.site(bi))
+            if L is None: continue
+            ss = carry_field(ctx, 'C09.tags/%s/subscripts' % name, body, st, 'subscripts', need_fields=[('v1::Constraint', 'id')], site=body.site(bi))
+            if ss is not None:
+                ctx.check(L.item in ss.locals, 'C09.tags/%s/subscripts-of-item' % name, 'T-CARRY', fn, 'subscripts do not derive from the loop\'s current constraint', body.site(bi))
+            # id differs per constraint: depends on a value that changes with every iteration
             sid = slice_op(ctx, body, agg_field_operand(st, 'id'))
-            ctx.check(sid.has_call(r'Iterator>::enumerate|Enumerate<') or any('Enumerate' in body.locals[l] for l in sid.locals),
-                      'C09.fresh/%s/per-constraint-offset' % name, 'T-CARRY', body.name, 'parameter id does not depend on the constraint index', body.site(bi))
-            for lo in loops:
-                ctx.check(bi in lo[4], 'C09.parameters/%s/in-loop' % name, 'T-LOOPMUST', body.name, 'parameter is not created inside the constraint loop', body.site(bi))
+            how = loop_counter_in(body, L, sid)
+            ctx.check(how is not None, 'C09.fresh/%s/per-constraint-offset' % name, 'T-CARRY', fn, 'parameter id does not depend on the constraint index', body.site(bi), index=how)
         else:
-            for lo in loops:
-                ctx.check(bi not in lo[4], 'C09.parameters/%s/outside-loop' % name, 'T-LOOPMUST', body.name, 'uniform parameter is created inside the constraint loop', body.site(bi))
-    # each constraint wrapped unchanged, on every path through the loop
-    raggs = find_aggregates(body, 'v1::RemovedConstraint')
-    for lo in loops:
-        inloop = [(bi, st) for bi, st in raggs if bi in lo[4]]
-        ctx.check(len(inloop) == 1, 'C09.wrap/%s/one' % name, 'T-CARRY', body.name, 'expected one RemovedConstraint built per loop iteration, found %d' % len(inloop), body.site())
-        for bi, st in inloop:
+            ctx.check(L is None, 'C09.parameters/%s/outside-loop' % name, 'T-LOOPMUST', fn, 'uniform parameter is created inside a loop', body.site(bi))
+
+    # ---- each constraint wrapped unchanged and moved to `removed_constraints`, on every path through a constraint loop
+    rpush = pushes_into(body, elem_ty='v1::RemovedConstraint')
+    moving = [L for L in cloops if any(c.bb in L.blocks and innermost(loops, c.bb) is L for c in rpush)]
+    ctx.check(bool(moving), 'C09.loop/%s/moves-constraints' % name, 'T-LOOPMUST', fn, 'no loop over self.constraints pushes onto a Vec<RemovedConstraint>', body.site())
+    for L in moving:
+        mine = [c for c in rpush if c.bb in L.blocks]
+        loop_must(ctx, 'C09.loop/%s/push-removed' % name, body, L.lo, lambda c: c in mine, 'removed_constraints.push')
+        for c in mine:
+            a = agg_def(body, root_of(body, c.args[1])[0], 'v1::RemovedConstraint')
+            ctx.check(a is not None and a[0] in L.blocks, 'C09.wrap/%s/built' % name, 'T-CARRY', fn, 'the value pushed is not a RemovedConstraint built in this iteration', body.site(c.bb))
+            if a is None: continue
+            bi, st = a
+            # constraint: Some(item) — the item itself, moved, through no call
             op = agg_field_operand(st, 'constraint')
-            s = slice_op(ctx, body, op)
-            item_locals = T.copies_of(body, lo[0].dst['l'])
-            ctx.check(lo[0].dst['l'] in s.locals and not any(x.item == 'clone' for x in s.call_objs) , 'C09.wrap/%s/unchanged' % name, 'T-CARRY', body.name,
+            some = agg_def(body, root_of(body, op)[0], 'Option::Some') if op is not None else None
+            inner = some[1]['rv']['ops'][0] if some else None
+            r, fs, calls = root_of(body, inner) if inner is not None else (None, [], [])
+            ctx.check(r == L.item and not calls, 'C09.wrap/%s/unchanged' % name, 'T-CARRY', fn,
                       'RemovedConstraint.constraint is not the loop item itself', body.site(bi))
             # nothing writes into the loop item before it is wrapped
-            item_ty = 'v1::Constraint'
             writes = []
             for b2, st2 in body.stmts():
-                if b2 in lo[4] and st2['dst']['p'] and any(a.endswith(item_ty) for a, f in fields_of_place(st2['dst'])):
+                if b2 in L.blocks and st2['dst']['p'] and any(a2.endswith('v1::Constraint') for a2, f in fields_of_place(st2['dst'])):
                     writes.append(body.site(b2))
-            ctx.check(not writes, 'C09.wrap/%s/no-write' % name, 'T-CARRY', body.name, 'the constraint is modified inside the loop at %s' % writes, body.site(bi))
+            ctx.check(not writes, 'C09.wrap/%s/no-write' % name, 'T-CARRY', fn, 'the constraint is modified inside the loop at %s' % writes, body.site(bi))
             if not uniform:
-                carry_field(ctx, 'C09.tags/%s/parameter_id' % name, body, st, 'removed_reason_parameters',
-                            need_fields=[('v1::Parameter', 'id')], need_consts=[r'"parameter_id"'], site=body.site(bi))
-        loop_must(ctx, 'C09.loop/%s/push-removed' % name, body, lo,
-                  lambda c: c.is_(item='push', path_re=r'Vec::<v1::RemovedConstraint>::push'), 'removed_constraints.push')
-        if not uniform:
-            loop_must(ctx, 'C09.loop/%s/push-parameter' % name, body, lo,
-                      lambda c: c.is_(item='push', path_re=r'Vec::<v1::Parameter>::push'), 'parameters.push')
+                st_ = carry_field(ctx, 'C09.tags/%s/parameter_id' % name, body, st, 'removed_reason_parameters',
+                                  need_fields=[('v1::Parameter', 'id')], need_consts=[r'"parameter_id"'], site=body.site(bi))
+                # the recorded id is the id of this constraint's weight
+                if st_ is not None:
+                    cands = [l for l in sorted(st_.locals) if PARAM_TY.match(body.locals[l]) and any(b2 in L.blocks for _, b2, _ in body.defs_of(l))]
+                    verdicts = [parameter_origin(ctx, body, loops, L, {'k': 'copy', 'pl': {'l': l, 'p': []}}, None) for l in cands]
+                    ok = bool(verdicts) and all(v[0] for v in verdicts)
+                    ctx.check(ok, 'C09.pair/%s/tag' % name, 'T-CARRY', fn, '"parameter_id" does not name the weight of this constraint: %s' %
+                              ('; '.join(v[1] for v in verdicts if not v[0]) or 'no parameter value found'), body.site(bi), how=[v[1] for v in verdicts])
 
 
 def check(ctx):
@@ -100,4 +454,8 @@ def check(ctx):
     ctx.floor('C09.carry', 18)
     ctx.floor('C09.fresh', 3)
     ctx.floor('C09.wrap', 6)
-    ctx.floor('C09.loop', 5)
+    ctx.floor('C09.loop', 8)
+    ctx.floor('C09.pair', 2)
+    ctx.floor('C09.parameters', 7)
+    ctx.floor('C09.objective', 4)
+    ctx.floor('C09.tags', 3)
